@@ -35,7 +35,7 @@ from harness.traces import validate
 
 PID = 'C05'
 DTYPES = ['float32', 'float64', 'int32', 'uint16']
-LAYOUTS = ['default', 'contiguous', 'tiny']
+LAYOUTS = ['default', 'contiguous', 'tiny', 'unsorted']
 
 
 def write_matrix(path, M, enc, layer, dtype, layout):
@@ -48,6 +48,22 @@ def write_matrix(path, M, enc, layer, dtype, layout):
     else:
         a = anndata.AnnData(X=X, obs=obs, var=var)
     a.write_h5ad(path)
+    if layout == 'unsorted':
+        # a legal CSR / CSC file whose minor indices are not ascending within a slice (as written by anndata after
+        # adata[:, gene_list] on a sparse matrix)
+        if enc != 'dense':
+            key = f'layers/{layer}' if layer else 'X'
+            with h5py.File(path, 'a') as f:
+                ptr = f[key]['indptr'][()]
+                idx = f[key]['indices'][()]
+                dat = f[key]['data'][()]
+                for i in range(len(ptr) - 1):
+                    a0, a1 = int(ptr[i]), int(ptr[i + 1])
+                    idx[a0:a1] = idx[a0:a1][::-1]
+                    dat[a0:a1] = dat[a0:a1][::-1]
+                f[key]['indices'][...] = idx
+                f[key]['data'][...] = dat
+        return
     if layout != 'default':
         key = f'layers/{layer}' if layer else 'X'
         with h5py.File(path, 'a') as f:
